@@ -18,7 +18,8 @@ WS_WIDE = WS_BASIC + [' ', ' ', '  ']
 
 # colon-less words: checks that are not kind:match (behave as '!'); some carry quote characters at one
 # edge (a quoted string needs the same quote at BOTH ends of the word) or are made of the constant signs
-BAD_WORDS = ['foobar', 'role', 'r1', 'nocolon', '%(x)s', '100%', '50%_quota', '%', 'a%b', '%s', '%(unclosed', "'a", "b'", '"q', 'x"', "'", '"', "'a'b", '!@', '@!', '@@', '!!']
+# (a parenthesis that is not at the outer edge of a word belongs to the word: '@(' and ')@' are colon-less words)
+BAD_WORDS = ['@(', '!(', 'x(', ')@', ')!', ')x', 'a(b', 'a)b', 'foobar', 'role', 'r1', 'nocolon', '%(x)s', '100%', '50%_quota', '%', 'a%b', '%s', '%(unclosed', "'a", "b'", '"q', 'x"', "'", '"', "'a'b", '!@', '@!', '@@', '!!']
 QUOTEY = ["'a", "b'", '"q', 'x"', "'", '"', "'a'b", "c'd"]
 
 
@@ -366,6 +367,9 @@ class LeafEnv:
     # with the remote checks (the caller installs harness.lang.install_http_stub): the stub server replies
     # True iff the target it is sent holds h<i> = 'v'
     WITH_HTTP = ALL + ('http', 'https')
+    # further kinds: a role name that itself contains a colon; a custom check class (harness.ev.install_probes)
+    # that accepts with a truthy value which is not True and rejects with a falsy one which is not False
+    EXTRA = ('colon', 'probe')
 
     def __init__(self, kinds=('role',), offset=0, upper=False):
         self.kinds = tuple(kinds)
@@ -384,8 +388,9 @@ class LeafEnv:
     def text(self, i):
         k = self.kind(i)
         t = {'role': 'role:r%d', 'generic': 'k%d:%%(t%d)s', 'literal': "'lit%d':%%(t%d)s", 'bool': 'True:%%(b%d)s',
-             'rule': 'rule:n%d', 'path': 'a%d.b.c:v', 'http': 'http://policy.invalid/leaf/%d', 'https': 'https://policy.invalid/leaf/%d'}[k]
-        if self.upper and k not in ('http', 'https'):
+             'rule': 'rule:n%d', 'path': 'a%d.b.c:v', 'http': 'http://policy.invalid/leaf/%d', 'https': 'https://policy.invalid/leaf/%d',
+             'colon': 'role:svc:team:r%d', 'probe': 'p4:f%d#%d'}[k]
+        if self.upper and k not in ('http', 'https', 'colon', 'probe'):
             t = {'role': 'role:R%d', 'generic': 'K%d:%%(T%d)s', 'literal': "'LIT%d':%%(T%d)s", 'bool': 'True:%%(B%d)s',
                  'rule': 'rule:N%d', 'path': 'A%d.B.C:v'}[k]
         t = t % ((i, i) if t.count('%d') == 2 else (i,))
@@ -410,6 +415,12 @@ class LeafEnv:
             if k in ('role', 'rule'):
                 if on:
                     creds['roles'].append('r%d' % i)
+            elif k == 'colon':
+                if on:
+                    creds['roles'].append('svc:team:r%d' % i)
+            elif k == 'probe':
+                if on:
+                    creds.setdefault('f', []).append('f%d' % i)
             elif k == 'generic':
                 creds[self._c('k%d' % i)] = 'v'
                 target[self._c('t%d' % i)] = 'v' if on else 'w'
